@@ -625,7 +625,60 @@ fn applicable(c: &CallRec, f: Fault) -> bool {
     }
 }
 
+fn fault_from(s: &str) -> Option<Fault> {
+    ALL_FAULTS.iter().cloned().find(|f| format!("{:?}", f) == s)
+}
+
+/// `--replay <file>`: re-run one recorded fault plan twice (must be identical) without the explorer.
+fn replay(path: &str) -> ! {
+    let body: Value = serde_json::from_str(&std::fs::read_to_string(path).unwrap_or_default()).unwrap_or(Value::Null);
+    let rp = &body["replay"];
+    let name = rp["script"].as_str().unwrap_or("").to_string();
+    let mut plan = Plan::new();
+    for e in rp["plan"].as_array().cloned().unwrap_or_default() {
+        if let (Some(i), Some(f)) = (e[0].as_u64(), e[1].as_str().and_then(fault_from)) {
+            plan.insert(i as usize, f);
+        }
+    }
+    let scs = Arc::new(scripts(true));
+    let si = match scs.iter().position(|s| s.name == name) {
+        Some(i) => i,
+        None => machinery_error("replay: no such script"),
+    };
+    let run = || {
+        let (scs2, p2) = (scs.clone(), plan.clone());
+        match vh::det::on_fresh_thread(si as u64 + 1, 64 << 20, move || run_sim(execute(&scs2[si], &p2))) {
+            Ok(o) => o,
+            Err(_) => {
+                println!("replay: the execution panicked");
+                println!("VIOLATION property=C07 replay={}", path);
+                std::process::exit(1);
+            }
+        }
+    };
+    let (a, b) = (run(), run());
+    if a.sig != b.sig || a.calls.len() != b.calls.len() || a.viol != b.viol {
+        machinery_error("replay is not deterministic");
+    }
+    for (i, c) in a.calls.iter().enumerate() {
+        println!("{}: {} {} {:?}{}", i, c.who, c.what, c.target, c.fault.map(|f| format!("  <== {:?}", f)).unwrap_or_default());
+    }
+    println!("outcome {}", a.sig);
+    if a.viol.is_empty() {
+        println!("replay: no violation under this plan");
+        std::process::exit(0);
+    }
+    for (k, d) in &a.viol {
+        println!("replay: {} {}", k, d);
+    }
+    println!("VIOLATION property=C07 replay={}", path);
+    std::process::exit(1);
+}
+
 pub fn run(cli: &Cli) -> (Value, Vec<Violation>) {
+    if let Some(p) = &cli.replay {
+        replay(p);
+    }
     let thorough = cli.thorough();
     let bound: usize = cli.opt("--faults").and_then(|s| s.parse().ok()).unwrap_or(if thorough { 2 } else { 1 });
     let pair_window: usize = cli.opt("--pair-window").and_then(|s| s.parse().ok()).unwrap_or(30);
